@@ -658,6 +658,9 @@ def strip_cont(line):
 DECL_KEYS = ["c", "c_buf", "f", "py"]
 
 
+FORMS = ["list", "text", "text+newline", "list+blank"]
+
+
 class DeclSplicerHarness(object):
     """Every function declaration of the library carries `splicer: {c:, c_buf:, f:, py:}` with four different
     symbolic lines, while file-level splicers with other text are supplied for every block: the body of each
@@ -682,12 +685,15 @@ class DeclSplicerHarness(object):
         # the YAML value of a splicer may be a list of lines, or one text (plain scalar / '|-' block: no final newline;
         # '|' block: final newline)
         fz = z3.Int("splicer_value_form")
-        e.assume(z3.And(fz >= 0, fz <= 2))
-        self.form = ["list", "text", "text+newline"][e.choose(fz)]
+        e.assume(z3.And(fz >= 0, fz <= 3))
+        self.form = FORMS[e.choose(fz)]
 
         def value_of(k):
             if self.form == "list":
                 return [self.user[k]]
+            if self.form == "list+blank":
+                # an empty list item (YAML gives None) is a blank line of the user's code
+                return [self.user[k], None, "tail_line();"]
             return self.user[k] if self.form == "text" else self.user[k] + "\n"
 
         def visit(node):
@@ -803,7 +809,8 @@ class DeclSplicerHarness(object):
                         break
                     continue
                 nchecked += 1
-                if not block_equiv(J, [chars_of(self.user[key])], found, "%s: body of the declaration's '%s' splicer" % (label, key)):
+                want = [chars_of(self.user[key])] + ([[], list("tail_line();")] if self.form == "list+blank" else [])
+                if not block_equiv(J, want, found, "%s: body of the declaration's '%s' splicer" % (label, key)):
                     break
         if self.twin and not J.fail:
             J.valid(False, "reachability twin")
@@ -1130,7 +1137,7 @@ def confirm(w):
             for k, sline in zip(DECL_KEYS, lines):
                 for i, ch in enumerate(sline):
                     e.assume(z3.Int("d%s_%d" % (k, i)) == ord(ch))
-            e.assume(z3.Int("splicer_value_form") == ["list", "text", "text+newline"].index(w.get("form", "list")))
+            e.assume(z3.Int("splicer_value_form") == FORMS.index(w.get("form", "list")))
             return h.run(e)
         saved = globals()["domain"]
         globals()["domain"] = lambda zs: True
